@@ -1,0 +1,96 @@
+//! Verification hook (`--cfg foca_verif`): a read-only snapshot of the
+//! complete instance state. Nothing here changes behaviour; with the
+//! cfg off this file is not compiled.
+use alloc::vec::Vec;
+
+use bytes::Buf;
+
+use crate::{Addr, BroadcastHandler, Codec, Config, ConnectionState, Foca, Identity, Member};
+
+pub use crate::probe::verif::VerifProbe;
+
+/// Plain copy of everything a `Foca` instance holds (except the rng,
+/// codec and broadcast handler, which belong to the caller).
+#[derive(Debug, Clone)]
+pub struct VerifSnapshot<T, K> {
+    /// Current identity
+    pub identity: T,
+    /// Current incarnation
+    pub incarnation: u16,
+    /// Current configuration
+    pub config: Config,
+    /// 0 = Disconnected, 1 = Connected, 2 = Undead
+    pub connection_state: u8,
+    /// Current timer token
+    pub timer_token: u8,
+    /// Member records in storage order
+    pub members: Vec<Member<T>>,
+    /// Round-robin cursor
+    pub cursor: usize,
+    /// Cached count of active members
+    pub num_active: usize,
+    /// Probe bookkeeping
+    pub probe: VerifProbe<T>,
+    /// Cluster updates backlog: (remaining_tx, data, key == addr of the
+    /// member encoded in data)
+    pub updates: Vec<(usize, Vec<u8>, bool)>,
+    /// Custom broadcasts backlog: (remaining_tx, data, key)
+    pub custom_broadcasts: Vec<(usize, Vec<u8>, K)>,
+    /// Sum of the lengths of the two scratch heaps (expected 0)
+    pub scratch_len: usize,
+    /// Capacity of the reusable send buffer
+    pub send_buf_capacity: usize,
+}
+
+impl<T, C, RNG, B> Foca<T, C, RNG, B>
+where
+    T: Identity,
+    C: Codec<T>,
+    B: BroadcastHandler<T>,
+    B::Key: Clone,
+{
+    /// Copy the full internal state out for comparison against the model.
+    pub fn verif_snapshot(&mut self) -> VerifSnapshot<T, B::Key> {
+        let (members, cursor, num_active) = self.members.verif_view();
+        let codec = &mut self.codec;
+        let (updates, flop_a) = self.updates.verif_view(|key: &Addr<T::Addr>, data: &[u8]| {
+            let mut buf = data;
+            match codec.decode_member(&mut buf) {
+                Ok(m) => !buf.has_remaining() && key.0 == m.id().addr(),
+                Err(_) => false,
+            }
+        });
+        let (custom_broadcasts, flop_b) = self
+            .custom_broadcasts
+            .verif_view(|key: &B::Key, _data: &[u8]| key.clone());
+        VerifSnapshot {
+            identity: self.identity.clone(),
+            incarnation: self.incarnation,
+            config: self.config.clone(),
+            connection_state: match self.connection_state {
+                ConnectionState::Disconnected => 0,
+                ConnectionState::Connected => 1,
+                ConnectionState::Undead => 2,
+            },
+            timer_token: self.timer_token,
+            members,
+            cursor,
+            num_active,
+            probe: self.probe.verif_view(),
+            updates,
+            custom_broadcasts,
+            scratch_len: flop_a + flop_b,
+            send_buf_capacity: self.send_buf.capacity(),
+        }
+    }
+
+    /// Mutable access to the caller-supplied broadcast handler.
+    pub fn verif_handler(&mut self) -> &mut B {
+        &mut self.broadcast_handler
+    }
+
+    /// Mutable access to the caller-supplied rng.
+    pub fn verif_rng(&mut self) -> &mut RNG {
+        &mut self.rng
+    }
+}
